@@ -52,7 +52,7 @@ func (c *Config) VerifyConfig(schema base.LogSchema) error {
 
 func (tf *truncateTransform) Transform(record *base.LogRecord) base.FilterResult {
 	value := tf.keyLocator.Get(record.Fields)
-	if len(value) > tf.maxLength+len(tf.suffix) {
+	if len(value)-len(tf.suffix) > tf.maxLength { // not maxLength+len(suffix): a huge maxLength would overflow
 		// copy what is kept: the value may share memory with other fields, config strings or constants
 		valueB := []byte(value[:tf.maxLength+len(tf.suffix)])
 
